@@ -82,16 +82,22 @@ pub fn kind_desc(kid: u8) -> (u8, u32, u32) {
         12 => (0, 64, 1), // usize
         13 => (0, 64, 2), // usize
         14 => (1, 64, 0),
-        _ => (2, 64, 0),
+        15 => (2, 64, 0),
+        16 => (0, 128, 3),
+        17 => (0, 64, 5),
+        _ => (0, 16, 4),
     }
 }
 
-pub const NKINDS: u8 = 16;
+pub const NKINDS: u8 = 19;
 pub const KD: u8 = 14;
 pub const KA: u8 = 15;
 
 pub fn kind_is_fixed(kid: u8) -> bool {
-    kid < 14
+    kid < 14 || kid >= 16
+}
+pub fn fixed_kinds() -> Vec<u8> {
+    (0..NKINDS).filter(|k| kind_is_fixed(*k)).collect()
 }
 pub fn kind_cap(kid: u8) -> usize {
     let (_, w, n) = kind_desc(kid);
